@@ -92,6 +92,25 @@ func init() {
 		s.Inbound = nil // a read routine that owes an acknowledgement queues up behind the writer before it sees any failure
 		return s
 	})
+	// an inbound message larger than the read buffer whose processing fails
+	// (marker Load/Save error, connection cut inside it): what the failure
+	// leaves of the BigMessage state must not reach ReadBackoff or the next
+	// connection
+	register("wedgebig", func() *Scenario {
+		s := scenarios["wedge"]()
+		s.ReadBuf = 64
+		s.Actors = []ActorSpec{
+			{Name: "reader", Reader: &ReaderSpec{Backoff: true, ReadBig: true}},
+			{Name: "A", Ops: []Op{{Kind: "ping"}, {Kind: "sub", Filters: []string{"w/b"}}}},
+		}
+		s.Inbound = []InMsg{
+			{QoS: 2, ID: 8, Topic: "in/2", Body: pay("big-q2", 90)},
+			{QoS: 1, ID: 7, Topic: "in/1", Body: []byte("inbound-1")},
+		}
+		s.Faults = Faults{Cut: true, CutDrop: true, ReadErr: true, BrokerResend: true, Store: map[string]bool{"load": true, "save": true}}
+		s.Hostile = nil
+		return s
+	})
 	register("wedgeburst", func() *Scenario {
 		s := scenarios["wedge"]()
 		s.Burst = true
